@@ -586,6 +586,12 @@ func (v *Verifier) intrinsic(fr *Frame, st *State, full string, fn *types.Func, 
 		n := c.Fresh("read$n", v.eng.IdxSort())
 		st.assume(v.iLe(v.idxConst(0), n))
 		st.assume(v.iLe(n, p.Len))
+		if v.eng.IntIdx() {
+			// position of the buffered reader: Read may return fewer bytes than asked for
+			id := v.ifaceIdentity(st, recv, pos)
+			posH := v.ghostHeap(st, gRdPos)
+			v.setGhostHeap(st, gRdPos, c.Store(posH, id, c.IAdd(c.Select(posH, id), n)))
+		}
 		res := fn.Type().(*types.Signature).Results()
 		return TupleVal{[]Val{v.intVal(n), OpaqueVal{Sh: v.eng.shapeOf(res.At(1).Type()), ID: c.Fresh("err", IntSort), Nil: c.Fresh("read$ok", BoolSort)}}}, true
 	case "(*bytes.Buffer).Write", "(*bytes.Buffer).Len", "(*bytes.Buffer).Bytes", "(*bytes.Buffer).WriteByte":
@@ -625,6 +631,10 @@ func (v *Verifier) intrinsic(fr *Frame, st *State, full string, fn *types.Func, 
 		if len(x.Args) == 1 && v.eng.IntIdx() {
 			if pv, ok := v.eval(fr, st, x.Args[0]).(PtrVal); ok && pv.Loc == nil {
 				h := v.ghostHeap(st, gReleased)
+				if !fr.inSpec {
+					// handing the same object to the pool twice makes two later Get calls share it
+					v.oblige(fr, st, "released", pos, c.Not(c.Select(h, pv.Ref)), "object is handed to a sync.Pool a second time")
+				}
 				h = c.Store(h, pv.Ref, c.True())
 				if pt, ok := v.typeOf(fr, x.Args[0]).Underlying().(*types.Pointer); ok {
 					if stt, ok := pt.Elem().Underlying().(*types.Struct); ok {
@@ -739,7 +749,10 @@ func (v *Verifier) intrinsic(fr *Frame, st *State, full string, fn *types.Func, 
 		st.assume(v.iLe(v.idxConst(0), n))
 		st.assume(v.iLe(n, p.Len))
 		st.assume(c.Implies(err.Nil, c.Eq(n, p.Len)))
-		if rd, isRd := args[0].(OpaqueVal); isRd && v.eng.IntIdx() {
+		_, isIface := args[0].(OpaqueVal)
+		_, isPtr := args[0].(PtrVal)
+		if (isIface || isPtr) && v.eng.IntIdx() {
+			rd := OpaqueVal{ID: v.ifaceIdentity(st, args[0], pos)}
 			posH := v.ghostHeap(st, gRdPos)
 			pos0 := c.Select(posH, rd.ID)
 			old := v.eng.heapRows(st, p.Sh.Elem, p.Ref)[0]
